@@ -28,6 +28,18 @@ def c15_shapes(tier, seed, features):
     s3['all_setters'] = True
     s3['setters'] = {1: ['skip_setter'], 2: ['setter_name = "put_inner"']}
     out.append(s3)
+    # every template once more with a CUSTOM setter name (the macro has a separate code path per template for
+    # `setter_name = ...`), struct-level opt-in and field-level opt-in
+    def all_kinds():
+        return [F('plain'), F('plain', rty='Option<u32>'), F('recurse', inner=leaf()), F('ropt', inner=leaf()),
+                F('ordered', cont='Vec'), F('unord', cont='Vec'), F('map', mode='kv', cont='HashMap'), F('map', mode='ko', cont='BTreeMap'),
+                F('recmap', mode='ko', inner=leaf(), cont='HashMap')]
+    s5 = struct(all_kinds()); s5['all_setters'] = True
+    s5['setters'] = {i: [f'setter_name = "put_{i}"'] for i in range(len(s5['fields']))}
+    out.append(s5)
+    s6 = struct(all_kinds())
+    s6['setters'] = {i: ['setter', f'setter_name = "assign_{i}"'] for i in range(len(s6['fields']))}
+    out.append(s6)
     s4 = struct([F('plain'), F('plain')], generic=True)
     s4['all_setters'] = True
     out.append(s4)
@@ -36,9 +48,11 @@ def c15_shapes(tier, seed, features):
         sh = shapes.random_shape(rnd, 0, features)
         sh['all_setters'] = rnd.random() < 0.7
         if not sh['all_setters']:
-            sh['setters'] = {i: ['setter'] for i, f in enumerate(sh['fields']) if not f['skip'] and rnd.random() < 0.6}
+            sh['setters'] = {i: (['setter'] if rnd.random() < 0.6 else ['setter', f'setter_name = "nm_{i}"'])
+                             for i, f in enumerate(sh['fields']) if not f['skip'] and rnd.random() < 0.6}
         else:
-            sh['setters'] = {i: ['skip_setter'] for i, f in enumerate(sh['fields']) if not f['skip'] and rnd.random() < 0.15}
+            sh['setters'] = {i: (['skip_setter'] if rnd.random() < 0.4 else [f'setter_name = "nm_{i}"'])
+                             for i, f in enumerate(sh['fields']) if not f['skip'] and rnd.random() < 0.35}
         out.append(sh)
     return shapes.name_shapes(out)
 
